@@ -73,20 +73,44 @@ def prop(spec, rec):
     model_cur = {}
     for c in spec["constraints"]:
         model_cur[c["name"]] = [abs(sum(c["coeffs"].get(ids[i], 0.0) * R[i, t] * cmath.exp(1j * math.radians(PH[i])) for i in range(n))) for t in range(T)]
-    if names:
+    def check_cc(names, when=""):
         for flag in (False, True):
             for req in (None, spec["requested"], []):
                 with warnings.catch_warnings():
                     warnings.simplefilter("ignore")
                     got = acnsim.constraint_currents(sim, return_magnitudes=flag, constraint_ids=None if req is None else list(req))
                 expect_keys = names if req is None else [nm for nm in names if nm in req]
-                require(sorted(got) == sorted(expect_keys), "constraint_currents_keys", lambda: "requested %r -> keys %r, expected %r" % (req, sorted(got), sorted(expect_keys)))
+                require(sorted(got) == sorted(expect_keys), "constraint_currents_keys", lambda: "%srequested %r -> keys %r, expected %r" % (when, req, sorted(got), sorted(expect_keys)))
                 for nm in expect_keys:
                     val = np.abs(np.asarray(got[nm]))
-                    require(val.shape == (T,) and np.allclose(val, model_cur[nm], rtol=1e-9, atol=1e-9), "constraint_currents_values", lambda: "constraint %s (requested %r, return_magnitudes=%r): |value| %r, phasor sums %r" % (nm, req, flag, list(val), model_cur[nm]))
+                    require(val.shape == (T,) and np.allclose(val, model_cur[nm], rtol=1e-9, atol=1e-9), "constraint_currents_values", lambda: "%sconstraint %s (requested %r, return_magnitudes=%r): |value| %r, phasor sums %r" % (when, nm, req, flag, list(val), model_cur[nm]))
+
+    if names:
+        check_cc(names)
         if spec["requested"] and [nm for nm in spec["requested"] if nm in names] != [nm for nm in names if nm in spec["requested"]]:
             labels.add("requested_not_in_network_order")
-    if len(names) >= 3:
+        if spec.get("retune"):
+            # a what-if study on the finished simulation: one limit of its network is changed (or a
+            # constraint dropped) through the documented API and the recorded trajectory is
+            # analysed again - the currents through the remaining constraints are what they were
+            from acnportal.acnsim import Current
+
+            rt = spec["retune"]
+            c = spec["constraints"][rt["index"] % len(spec["constraints"])]
+            with warnings.catch_warnings():
+                warnings.simplefilter("ignore")
+                if rt["how"] == "remove":
+                    sim.network.remove_constraint(c["name"])
+                    left = [nm for nm in names if nm != c["name"]]
+                else:
+                    sim.network.update_constraint(c["name"], Current(dict(c["coeffs"])), c["limit"] * rt["factor"])
+                    left = list(names)
+            if left:
+                check_cc(left, "after the network's constraint %r was %s: " % (c["name"], "removed" if rt["how"] == "remove" else "given another limit"))
+            labels.add("analysed_again_after_a_constraint_edit")
+            if rt["how"] == "remove":
+                names = left
+    if len(spec["phase_ids"]) == 3 and all(p in names for p in spec["phase_ids"]):
         ph_ids = spec["phase_ids"]
         with warnings.catch_warnings(), np.errstate(all="ignore"):
             warnings.simplefilter("ignore")
@@ -175,6 +199,8 @@ def cases(draw):
     spec["threshold"] = draw(st.sampled_from([0.1, 0.001, 1.0, 5.0, 0.0, 0.0, -0.05]))
     spec["tz"] = draw(st.sampled_from([None, None, -8, 5.5]))
     spec["analyse"] = draw(st.sampled_from(["direct", "direct", "json_string", "json_path", "json_buffer", "deepcopy"]))
+    if names and draw(st.integers(0, 2)) == 0:
+        spec["retune"] = {"index": draw(st.integers(0, 4)), "how": draw(st.sampled_from(["limit", "limit", "remove"])), "factor": draw(st.sampled_from([0.5, 2.0, 1.0]))}
     if draw(st.integers(0, 3)) == 0:
         # a single-phase site: every station on the same angle (mixed-sign coefficients stay)
         ph = draw(st.sampled_from([0.0, 30.0, -90.0, 180.0]))
